@@ -138,9 +138,9 @@ type sigInfo struct {
 	Key          string
 	SubFilter    string
 	BR           [4]int
-	BRPos, BRLen int // text between [ and ] of this signature's /ByteRange in the file
+	BRPos, BRLen int       // text between [ and ] of this signature's /ByteRange in the file
 	BRTok        [4][2]int // absolute [start,end) of each number token
-	GapLo, GapHi int // extent of the <...> hex string of /Contents ([GapLo,GapHi)), -1 if not found
+	GapLo, GapHi int       // extent of the <...> hex string of /Contents ([GapLo,GapHi)), -1 if not found
 	Base         verdict
 }
 
